@@ -39,6 +39,9 @@ INVS = "INVARIANTS TypeOK TableOK TimerCoherent NoImmortal"
 PROPS = ["P_C19_Sticky", "P_C19_Isolation", "P_C19_Integrity", "P_C19_Cap", "P_C19_Teardown", "P_C19_Timer"]
 # sub-property each open deviation must break, and its "modulo the finding" replacement
 DEV_BREAKS = {"AffinityRekey": ("P_C19_Sticky", "P_C19_StickyModuloRekey", "affinity-rekey")}
+# self-test switches (never open findings): defect classes the model checker must refute on every run -
+# switch -> (property that must be violated, family, inputs, time)
+SELFTESTS = {"CapFloorsAtLive": ("P_C19_Cap", "cap", 3, 0)}
 
 TRACE_CFG = """SPECIFICATION TraceSpec
 CONSTANTS
@@ -113,7 +116,7 @@ def _run(rep, tier, replay):
     # The TLC jobs of steps 1-3 are independent: they run concurrently (a few workers each), the shell leg
     # (mostly waiting on sockets) runs beside everything; results are applied to the report in order.
     pool = ThreadPoolExecutor(max_workers=6)
-    shell_future = pool.submit(shell_run, wd, bins, devs, seed, 6 if thorough else 2, 40 if thorough else 24)
+    shell_future = pool.submit(shell_run, wd, bins, devs, seed, 8 if thorough else 3, 40 if thorough else 28)
     sim_future = pool.submit(sim_job, wd, bins, devs, seed, thorough)
     trace_future = pool.submit(trace_job, wd, bins, devs, seed, thorough)
     tw = 5 if thorough else 3
@@ -122,7 +125,8 @@ def _run(rep, tier, replay):
     # (when no deviation is open, step 3 is this very check on the same universes)
     mc_jobs = []
     if devs:
-        mc = [("affinity", 5, 3), ("limits", 4, 3), ("pp", 5, 3)] if thorough else [("affinity", 4, 2), ("limits", 3, 1), ("pp", 3, 2)]
+        mc = ([("affinity", 5, 3), ("limits", 4, 3), ("pp", 5, 3), ("cap", 7, 1)] if thorough
+              else [("affinity", 4, 2), ("limits", 3, 1), ("pp", 3, 2), ("cap", 5, 0)])
         for fam, ni, nt in mc:
             mc_jobs.append((fam, pool.submit(vlib.tlc, "UdpFlows", write_cfg(wd, "mc_%s.cfg" % fam, fam, ni, nt, []), PID,
                                              workers=tw, timeout=3000 if thorough else 600)))
@@ -137,9 +141,14 @@ def _run(rep, tier, replay):
                                         PID, workers=2, timeout=900)))
         props = [modulo if p == broken else p for p in props]
 
+    # self-test switches: TLC must produce a counterexample to the named property
+    self_jobs = [(d, t, pool.submit(vlib.tlc, "UdpFlows", write_cfg(wd, "self_%s.cfg" % d, t[1], t[2], t[3], [d], props=[t[0]]),
+                                    PID, workers=1, timeout=600)) for d, t in SELFTESTS.items()]
+
     # ---- 3. the spec as the code behaves (open deviations on): model-checked against everything the findings do
     #         not excuse, and at the same time printed transition by transition and executed on the real manager
-    gen = [("affinity", 5, 2), ("limits", 4, 2), ("pp", 5, 2)] if thorough else [("affinity", 4, 2), ("limits", 3, 2), ("pp", 4, 2)]
+    gen = ([("affinity", 5, 2), ("limits", 4, 2), ("pp", 5, 2), ("cap", 7, 1)] if thorough
+           else [("affinity", 4, 2), ("limits", 3, 2), ("pp", 4, 2), ("cap", 6, 0)])
 
     def gen_job(k, fam, ni, nt):
         path = os.path.join(wd, "edges_%s.ndjson" % fam)
@@ -167,6 +176,13 @@ def _run(rep, tier, replay):
             raise vlib.ToolError("deviation %s no longer violates %s in the model (got %s)" % (d, broken, rd["violated"]))
         rep.known_finding_seen(fid)
         vlib.log("deviation %s: TLC counterexample to %s as expected" % (d, broken))
+
+    for d, t, fut in self_jobs:
+        rd = fut.result()
+        rep.add_tlc(rd)
+        if rd["violated"] != t[0]:
+            raise vlib.ToolError("self-test switch %s is not refuted by %s in the model (got %s)" % (d, t[0], rd["violated"]))
+        vlib.log("self-test %s: TLC counterexample to %s as expected" % (d, t[0]))
 
     cover = {}
     total_edges = total_nodes = total_beh = total_steps = 0
@@ -302,6 +318,19 @@ def shell_run(wd, bins, devs, seed, runs, steps):
     cfg = shell_cfg(wd, "shell.cfg", devs)
     tr = vlib.tlc_trace("Trace_UdpShell", cfg, PID, trace, timeout=600)
     canary_problem = None
+    reproduced = None
+    if not tr["accepted"] and tr["consumed"] is not None:
+        # observations of a real worker on a loaded machine: the run that holds the rejected event is driven again,
+        # alone, with 4x the patience; a rejection is only reported when the same schedule is rejected again
+        lines = open(trace).read().splitlines()
+        bad_run = json.loads(lines[min(tr["consumed"], len(lines) - 1)]).get("run", 1)
+        redo = os.path.join(wd, "shell_redo.ndjson")
+        vlib.run_harness(bins["shell_udp"], ["--seed", str(seed), "--runs", str(runs), "--steps", str(steps), "--quiet-ms", "8000",
+                                             "--flips", "1", "--only", str(bad_run), "--out", redo], timeout=1500)
+        rr = vlib.tlc_trace("Trace_UdpShell", cfg, PID, redo, timeout=600)
+        reproduced = not rr["accepted"]
+        vlib.log("shell leg: run %d rejected at event %s; driven again alone with 4x patience: %s"
+                 % (bad_run, tr["consumed"], "rejected again" if reproduced else "ACCEPTED (not reproduced)"))
     if tr["accepted"]:
         lines = open(trace).read().splitlines()
         missing = [c for c in SHELL_NEED if not summ["cover"].get(c)]
@@ -338,7 +367,7 @@ def shell_run(wd, bins, devs, seed, runs, steps):
             cr = vlib.tlc_trace("Trace_UdpShell", cfg, PID, canary, timeout=600)
             if cr["accepted"] or cr["consumed"] != i:
                 canary_problem = canary_problem or "shell canary: a datagram moved to the other backend (event %d) was not rejected there (consumed %s)" % (i, cr["consumed"])
-    return {"out": out, "summ": summ, "tr": tr, "trace": trace, "canary_problem": canary_problem}
+    return {"out": out, "summ": summ, "tr": tr, "trace": trace, "canary_problem": canary_problem, "reproduced": reproduced}
 
 
 def shell_apply(rep, res, cover):
@@ -348,6 +377,9 @@ def shell_apply(rep, res, cover):
             rep.violation(v["class"], "the worker thread panicked: %s" % v["detail"].get("panic", "")[:200], v, name="shell_panic.json")
     rep.add_tlc(tr)
     if not tr["accepted"]:
+        if res.get("reproduced") is False and not rep.violations:
+            raise vlib.ToolError("shell leg: a run was rejected (event %s) but accepted when driven again alone with 4x patience: "
+                                 "inconclusive (timing on a loaded machine?), see %s" % (tr["consumed"], res["trace"]))
         record_trace_rejection(rep, tr, res["trace"], "shell")
     else:
         rep.cov["traces_validated_against_impl"] += summ["runs"]
@@ -473,14 +505,20 @@ def corrupt_trace(src, dst, seed):
 
 def run_replay(rep, wd, bins, devs, replay):
     """./check C19 --replay <file>: re-evaluate a file written by this check against the current tree.
-    *.ndjson = a recorded run (trace prefix): validated again by TLC as it stands.
+    *.ndjson = a recorded run (trace prefix; of the pure manager or of the real worker): validated again by TLC as it
+               stands (what was observed on the wire is part of the file: the decision is re-derived, the run is not re-driven).
     *.json   = a replayer violation: its history is executed again on the real UdpManager and the last
                step is compared with the stored prediction of the spec."""
     if replay.endswith(".ndjson"):
-        tr = vlib.tlc_trace("Trace_UdpFlows", write_trace_cfg(wd, devs), PID, replay, timeout=600)
+        # a run of the real worker (shell leg: its reset line names the clients) or of the pure manager
+        shell = '"clients"' in open(replay).readline()
+        if shell:
+            tr = vlib.tlc_trace("Trace_UdpShell", shell_cfg(wd, "shell.cfg", devs), PID, replay, timeout=600)
+        else:
+            tr = vlib.tlc_trace("Trace_UdpFlows", write_trace_cfg(wd, devs), PID, replay, timeout=600)
         print(tr["out"][-3000:])
         if not tr["accepted"]:
-            record_trace_rejection(rep, tr, replay, "replayed")
+            record_trace_rejection(rep, tr, replay, "shell" if shell else "replayed")
         else:
             rep.cov["traces_validated_against_impl"] += 1
     else:
